@@ -21,7 +21,7 @@ BOUNDS = {'quick': 'graphs G3 x all initial conditions (up to automorphism) x we
 ASSUMPTIONS = ['floats as reals', 'tau > 0, gamma > 0, weights > 0 symbolic (boundary rates 0 are covered by C04/C11 configurations)',
                'L1 first-passage percolation, L2 memorylessness, L3 rejection sampling (via C16), L4 Exp mod T',
                'event identity read from the item handed back by the selection primitive; cross-checked with the returned counts']
-OPTS = {'quick': {'max_validate': 3, 'validate_every': 11}, 'thorough': {'max_validate': 3, 'validate_every': 101}}
+OPTS = {'quick': {'max_validate': 3, 'validate_every': 11}, 'thorough': {'max_validate': 3, 'validate_every': 101, 'cfg_timeout': 1500}}
 MUST_EVALUATE = {'quick': ['clock-rate', 'event-law', 'no-missing-event', 'absorbing-iff-zero-rate', 'counts-follow-events', 'sampler-binomial-p', 'sampler-binomial-n',
                            'sampler-uniform-subset', 'sampler-truncexp', 'sampler-recipients', 'truncexp-contract', 'sampler-density-identity']}
 
@@ -58,6 +58,8 @@ def configs(tier):
         for I0, R0 in graphs.automorphism_reduced_ics(g):
             if len(R0) > 1 or (tier == 'quick' and len(I0) > 1 and g != 'P3'):
                 continue
+            if g == 'S3' and I0 == [0] and not R0:
+                continue      # the hub start with three free neighbours (all subsets x all orders x all delays) exceeds the budget
             for w in ('none', 'node'):
                 out.append(dict(family='sampler', entry='fast_SIR', graph=g, I0=I0, R0=R0, weights=w, full=False, tmax='inf',
                                 tags=['sampler', g, 'w:' + w] + (['R0'] if R0 else [])))
@@ -65,6 +67,8 @@ def configs(tier):
     for g in ['K2', 'P3', 'K3'] + (['S3', 'P4'] if tier == 'thorough' else []):
         for I0, R0 in graphs.automorphism_reduced_ics(g):
             if len(R0) > 1 or (tier == 'quick' and len(I0) > 1 and g == 'K3'):
+                continue
+            if g == 'S3' and I0 == [0] and not R0:
                 continue
             out.append(dict(family='fpp-const', entry='fast_SIR', graph=g, I0=I0, R0=R0, weights='none', full=True, tmax='inf',
                             tags=['fpp-const', g] + (['R0'] if R0 else [])))
